@@ -151,7 +151,7 @@ def cases(tier, seed):
                             "instant": 0.0, "w": [1, 1, 1, 1], "uniq": uniq,
                         }
     # --- random part
-    nrand = 7000 if tier == "quick" else 90000
+    nrand = 7000 if tier == "quick" else 75000
     rng = random.Random("rnd-%s-%s" % (tier, seed))
     for _ in range(nrand):
         i += 1
